@@ -60,6 +60,13 @@ DOCS = {
                            "f": {"allOf": [{}]}, "g": {"type": "array", "items": {"type": "boolean"}}}},
     "unnamed_characters": {"type": "object", "title": "Root", "properties": {"flag\u0001set": {"type": "integer"}, "\ue000": {"type": "string"}, "a\uffffb": {}},
                            "required": ["x\u0002", "flag\u0001set"], "patternProperties": {"\u0003": {"type": "null"}}},
+    # same outer title / property names / structure, the nested class titled differently (a cache keyed on class equality confuses them)
+    "outer_child": {"type": "object", "title": "Top", "properties": {"o": {"type": "object", "title": "Outer", "properties": {
+        "child": {"type": "object", "title": "Child", "properties": {"value": {"type": "integer"}}}}}}},
+    "outer_kid": {"type": "object", "title": "Top", "properties": {"o": {"type": "object", "title": "Outer", "properties": {
+        "child": {"type": "object", "title": "Kid", "properties": {"value": {"type": "integer"}}}}},
+        "c": {"type": "object", "title": "Child", "properties": {"other": {"type": "string"}}}}},
+    "outer_kid_root": {"type": "object", "title": "Outer", "properties": {"child": {"type": "object", "title": "Kid", "properties": {"value": {"type": "integer"}}}}},
     "unsupported_message": {"type": "object", "title": "Root", "if": {}, "then": {}, "else": {}},
 }
 
@@ -178,7 +185,9 @@ def deterministic(name, ka1, kb1, ka2, kb2):
 
         ka1, ka2 = concretize_int(ka1, 0, 11), concretize_int(ka2, 0, 11)
         kb1, kb2 = concretize_int(kb1, 0, 1), concretize_int(kb2, 0, 1)
-        with NoTracing():
+        from vf.prelude import real_hash
+
+        with NoTracing(), real_hash():
             shim_all()
             return under_oracle(doc, ka1, kb1) == under_oracle(doc, ka2, kb2)
     # replay: real processes, real hash seeds
@@ -186,22 +195,53 @@ def deterministic(name, ka1, kb1, ka2, kb2):
     return len(outs) == 1
 
 
+_FRESH = {}
+
+
+def fresh_output(name):
+    """repr(generate(DOCS[name])) from a NEW interpreter that has generated nothing else (no shims)"""
+    if name not in _FRESH:
+        from vf.runner import env
+
+        p = subprocess.run([sys.executable, "-c", "import sys\nfrom vf.props.C09 import generate, DOCS\nprint(repr(generate(DOCS[sys.argv[1]])))", name],
+                           capture_output=True, text=True, env=env(), timeout=120)
+        if p.returncode != 0:
+            from vf.common import HarnessError
+
+            raise HarnessError("fresh_output(%s): %s" % (name, p.stderr[-300:]))
+        _FRESH[name] = p.stdout.strip()
+    return _FRESH[name]
+
+
 def history_independent(i, j):
-    """the output for document B does not depend on what the process generated before (document A in between)"""
+    """the output for document B does not depend on what the process generated before: B generated before A, B generated
+    after A, and B generated by a new interpreter are all identical"""
     from vf.common import _tracing, concretize_int
 
     names = sorted(DOCS)
     i, j = concretize_int(i, 0, len(names) - 1), concretize_int(j, 0, len(names) - 1)
 
     def go():
-        first = generate(DOCS[names[j]])
-        generate(DOCS[names[i]])
-        return generate(DOCS[names[j]]) == first
+        # each ordered pair runs in its OWN interpreter (plain real code, no shims): A first - whatever A leaves behind
+        # (caches keyed on equal-looking classes, registries) is there when B runs - then B, A, B again
+        from vf.runner import env
+        from vf.common import HarnessError
+
+        p = subprocess.run([sys.executable, "-c", "import sys\nfrom vf.props.C09 import generate, DOCS\na, b = DOCS[sys.argv[1]], DOCS[sys.argv[2]]\n"
+                            "try:\n    generate(a); x = generate(b); generate(a); y = generate(b)\n    print(repr(x)); print(x == y)\n"
+                            "except Exception as e:\n    print('EXC ' + type(e).__name__); print(False)\n", names[i], names[j]],
+                           capture_output=True, text=True, env=env(), timeout=120)
+        if p.returncode != 0:
+            raise HarnessError("history pair (%s, %s): %s" % (names[i], names[j], p.stderr[-300:]))
+        out = p.stdout.strip().split("\n")
+        return out[-1] == "True" and out[0] == fresh_output(names[j])
 
     if _tracing():
         from crosshair.tracers import NoTracing
 
-        with NoTracing():
+        from vf.prelude import real_hash
+
+        with NoTracing(), real_hash():
             return go()
     return go()
 
